@@ -33,11 +33,17 @@ type c10unit struct {
 	data    func() interface{} // Go data used as '.' instead of p.Data
 	mkset   func() *jet.Set
 	share   *c10unit // executes the parsed template of another unit (same Set) with its own variables
+	// want: the result with a healthy writer is known beforehand (used instead of a reference execution where the state
+	// that could leak is process-wide and would spoil the reference execution just as well)
+	want *c10result
 }
 
 // c10fresh executes u on a Set built and parsed from scratch: the reference is independent of anything earlier
 // executions may have left in the parsed templates of the unit's own Set.
 func c10fresh(u *c10unit, failAfter int) c10result {
+	if u.want != nil && failAfter < 0 {
+		return *u.want
+	}
 	cp := *u
 	cp.set = u.mkset()
 	t, err, pan := jx.Get(cp.set, u.p.Main)
@@ -318,6 +324,20 @@ func c10run(c *fw.Ctx, idx int) {
 	}
 	dumpFirst := &c10unit{name: "dump-beside-variables-named-like-globals", p: dumpp("/dumps.jet")}
 	units = append(units, dumpFirst, &c10unit{name: "globals-rendered", p: dumpp("/globals.jet"), share: dumpFirst})
+	// two struct types of the same name with their fields in another order, rendered by one template: what an execution
+	// learnt about the first is not applied to the second (the field index cache is process-wide, so the expected
+	// rendering is spelt out instead of taken from a reference execution)
+	rowp := &prog.Program{Main: "/probe.jet", Vars: map[string]prog.Value{}, Files: []*prog.File{{Path: "/probe.jet", Body: []prog.Node{&prog.RawFail{Src: `{{ .Label }} <{{ .N }}>`}}}}}
+	rowA := &c10unit{name: "same-named-struct-type-a", p: rowp, data: c11rowA, want: &c10result{out: "report <3>"}}
+	rowB := &c10unit{name: "same-named-struct-type-b", p: rowp, data: c11rowB, want: &c10result{out: "other <99>"}, share: rowA}
+	units = append(units, rowA, rowB)
+	// dump() lists variables, globals and blocks in sorted order: the same bytes every time
+	dumpb := &prog.Program{Main: "/dumpblocks.jet", Vars: map[string]prog.Value{}, Data: prog.Str("a-context"), HasData: true, Files: []*prog.File{
+		{Path: "/dumpblocks.jet", Body: []prog.Node{&prog.RawFail{Src: `{{extends "/dumplayout.jet"}}{{import "/dumplib.jet"}}{{block b3()}}3{{end}}{{block b1()}}1{{end}}{{block b7()}}7{{end}}`}}},
+		{Path: "/dumplayout.jet", Body: []prog.Node{&prog.RawFail{Src: `{{block b2()}}2{{end}}{{block b6(x=1)}}6{{end}}|{{ split(dump(), "Blocks:")[1] }}`}}},
+		{Path: "/dumplib.jet", Body: []prog.Node{&prog.RawFail{Src: `{{block b5()}}5{{end}}{{block b4()}}4{{end}}`}}},
+	}}
+	units = append(units, &c10unit{name: "dump-lists-blocks", p: dumpb})
 	var incFirst *c10unit
 	for _, v := range [][2]string{{"a.jet", "/parts/"}, {"b.jet", "/alt/"}, {"missing.jet", "/parts/"}, {"b.jet", "/parts/"}} {
 		u := &c10unit{name: "include-computed-" + strings.TrimSuffix(v[0], ".jet") + "-" + strings.Trim(v[1], "/"), p: incp, share: incFirst}
